@@ -677,8 +677,8 @@ def eval_retry(chk, header, exprs, **kw):
     try:
         return chk.coq_eval(header, exprs, **kw)
     except RuntimeError as e:
-        if "rc=137" not in str(e) and "Killed" not in str(e):
-            raise
+        if "Error:" in str(e) and "rc=137" not in str(e) and "Killed" not in str(e):
+            raise                    # a Coq error is a statement about the model; anything else is the machine
         time.sleep(20)
         return chk.coq_eval(header, exprs, **kw)
 
@@ -1100,11 +1100,11 @@ def run(chk, args):
             for k in range(0, len(words), per):
                 lit = vlist("(%d, %d, %d, %d)" % q for q in words[k:k + per])
                 cexprs.append("forallb (fun q => let '(x, y, l, w) := q in get_region_for_chip x y l =? w) %s" % lit)
-            cvals = chk.coq_eval(HEADER, cexprs, shard=2, timeout=1200, name="chips")
+            cvals = eval_retry(chk, HEADER, cexprs, shard=2, timeout=1200, name="chips")
             chk.traces_validated += len(words)
             chk.oblige("correspondence:get_region_for_chip (%d calls; default level = generated default %s)"
                        % (len(words), "3"), all(v is True for v in cvals))
-            dv = chk.coq_eval(HEADER, ["get_region_for_chip_default_level"], name="deflevel")
+            dv = eval_retry(chk, HEADER, ["get_region_for_chip_default_level"], name="deflevel")
             chk.oblige("get_region_for_chip default level is 3 (the single-chip level the property speaks of)", dv == [3],
                        "generated default is %r" % (dv,))
         except RuntimeError as e:
